@@ -5,6 +5,7 @@ package main
 import (
 	"bytes"
 	"encoding/binary"
+	"errors"
 	"flag"
 	"fmt"
 	"math"
@@ -490,13 +491,13 @@ func runTwo(b []byte, src string) string {
 		r := thrift.NewBufferReader(rd)
 		s1, err := r.ReadString()
 		if err != nil {
-			return "err1 " + lib.ErrStr(err)
+			return "err1 " + wireErrStr(err)
 		}
 		h1 := lib.Hex([]byte(s1)) // a copy of what was returned, taken now
 		rd.Release(nil)
 		s2, err := r.ReadString()
 		if err != nil {
-			return "err2 " + lib.ErrStr(err)
+			return "err2 " + wireErrStr(err)
 		}
 		h2 := lib.Hex([]byte(s2))
 		return fmt.Sprintf("ok %s %s %s %d", h1, h2, lib.Hex([]byte(s1)), r.Readn())
@@ -684,6 +685,57 @@ func runReadBuf(kind string, in []byte) string {
 	})
 }
 
+// errWrapPE: injected source error number 9 — a transport error that WRAPS a protocol exception
+// (fmt.Errorf("…: %w", pe)). The stream reader must hand it on so that errors.Is(err, errWrapPE) holds.
+var errWrapPE = fmt.Errorf("read tcp: %w", thrift.NewProtocolException(thrift.INVALID_DATA, "inner"))
+
+func wireInjErr(k int) error {
+	if k == 9 {
+		return errWrapPE
+	}
+	return lib.InjErr(k)
+}
+
+// wireSource: lib.Source with the family's own error class 9
+type wireSource struct {
+	Stream []byte
+	Script lib.Script
+	Pos    int
+}
+
+func (s *wireSource) Read(p []byte) (int, error) {
+	if len(s.Script) == 0 {
+		return 0, wireInjErr(0)
+	}
+	r := s.Script[0]
+	s.Script = s.Script[1:]
+	k := r.K
+	if k > len(p) {
+		k = len(p)
+	}
+	if k > len(s.Stream)-s.Pos {
+		k = len(s.Stream) - s.Pos
+	}
+	copy(p, s.Stream[s.Pos:s.Pos+k])
+	s.Pos += k
+	if r.Err >= 0 {
+		return k, wireInjErr(r.Err)
+	}
+	return k, nil
+}
+
+// wireErrStr: lib.ErrStr, except that an error through which errors.Is finds source error 9 prints it
+// as `src9` (so the line shows whether the source's error is still matchable)
+func wireErrStr(err error) string {
+	if err != nil && errors.Is(err, errWrapPE) {
+		if pe, ok := err.(*thrift.ProtocolException); ok {
+			return fmt.Sprintf("pe%d(src9)", pe.TypeId())
+		}
+		return "src9"
+	}
+	return lib.ErrStr(err)
+}
+
 func mkReader(b []byte, src string) bufiox.Reader {
 	if src[0] == 'b' {
 		c, _ := strconv.Atoi(src[1:])
@@ -694,7 +746,7 @@ func mkReader(b []byte, src string) bufiox.Reader {
 		copy(buf, b)
 		return bufiox.NewBytesReader(buf)
 	}
-	return bufiox.NewDefaultReader(lib.NewSource(b, lib.ParseScript(src)))
+	return bufiox.NewDefaultReader(&wireSource{Stream: b, Script: lib.ParseScript(src)})
 }
 
 func runReadStream(kind string, b []byte, src string) string {
@@ -765,7 +817,7 @@ func runReadStream(kind string, b []byte, src string) string {
 			return "bad-kind"
 		}
 		if err != nil {
-			return "err " + lib.ErrStr(err)
+			return "err " + wireErrStr(err)
 		}
 		return fmt.Sprintf("ok %s %d", val, r.Readn())
 	})
@@ -1039,6 +1091,19 @@ func bundle(r *lib.Rng, class string, v Val, o bundleOpts) {
 	for i := 0; i < o.scripts; i++ {
 		sc := scriptFor(r, len(in), i%2 == 0)
 		em.Count("script:" + scriptClass(sc))
+		opReadStream(k, in, sc.String())
+	}
+	if o.scripts > 0 && len(in) > 0 && len(in) <= 1500 {
+		// the source fails with a transport error that wraps a protocol exception (error class 9):
+		// before all bytes, or together with the last ones
+		cut := r.Pick(0, r.Intn(len(in)), len(in)-1, len(in))
+		sc := lib.Script{}
+		if cut > 1 && r.Bool() {
+			sc = append(sc, lib.Resp{K: cut / 2, Err: -1})
+			cut -= cut / 2
+		}
+		sc = append(sc, lib.Resp{K: cut, Err: 9})
+		em.Count("script:err9")
 		opReadStream(k, in, sc.String())
 	}
 	if len(in) <= 4096 && len(in) > 0 { // everything in one read, together with an error (the F1 shape)
@@ -1439,6 +1504,19 @@ func genC12(o *lib.Opts, r *lib.Rng) {
 			opReadBuf("msg", b)
 			opReadStream("msg", b, "b"+strconv.Itoa(len(b)))
 			opReadStream("msg", b, benignScript(r, len(b)).String())
+		}
+	}
+	// buffers of every length 0..12 around good and bad first words (the header guard and the version check)
+	for _, w := range []uint32{0x80010001, 0x80010000, 0x80020001, 0x00010001, 0, 0xffffffff, 0x80000001, 0x7fff0000, 0x8001ffff} {
+		full := append(binary.BigEndian.AppendUint32(nil, w), refEnc(Val{K: "msg", S: []byte("abcd"), MsgTyp: 0, I: 5})[4:]...)
+		full = append(full, 0xee, 0xee)
+		for L := 0; L <= 12 && L <= len(full); L++ {
+			b := full[:L]
+			em.Count("msg-len0-12")
+			opReadBuf("msg", b)
+			opReadStream("msg", b, "b"+strconv.Itoa(L+1))
+			opReadStream("msg", b, scriptFor(r, L, true).String())
+			em.Line(runUnmarshal(b), "msg", "unmarshal", lib.Hex(b))
 		}
 	}
 	// negative and hostile name lengths
